@@ -72,6 +72,19 @@ func keyMatch(key, sub string) bool {
 	return false
 }
 
+// Find returns the info of the last event of the given kind whose key matches
+// sub, and whether there is one.
+func (l *Log) Find(kind, sub string) (string, bool) {
+	l.mu.Lock()
+	defer l.mu.Unlock()
+	for i := len(l.ev) - 1; i >= 0; i-- {
+		if l.ev[i].Kind == kind && keyMatch(l.ev[i].Key, sub) {
+			return l.ev[i].Info, true
+		}
+	}
+	return "", false
+}
+
 // Slice renders the last max events of the connection / client sub ("" = all).
 func (l *Log) Slice(sub string, max int) string {
 	l.mu.Lock()
